@@ -988,3 +988,20 @@ V("C39-new-unchecked-narrowing","C39",PR+"converter.go","""func Convert(fromPrec
 }
 
 func Convert(fromPrecision""",rule="C39.R1")
+
+# ---- C08
+V("C08-locked-not-fatal","C08",EN+"put.go","""		if errors.Is(err, apistatus.ErrLockNonRegularObject) ||
+			errors.Is(err, apistatus.ErrObjectLocked) ||
+			errors.Is(err, apistatus.ErrObjectAlreadyRemoved) {""","""		if errors.Is(err, apistatus.ErrLockNonRegularObject) ||
+			errors.Is(err, apistatus.ErrObjectAlreadyRemoved) {""",rule="C08.R2")
+V("C08-rollback-skips-first","C08",EN+"put.go","""		for _, sh := range goodShards {
+			var err = sh.Delete(addr.Container(), []oid.ID{addr.Object()})""","""		for _, sh := range goodShards[1:] {
+			var err = sh.Delete(addr.Container(), []oid.ID{addr.Object()})""",rule="C08.R3")
+V("C08-success-despite-fatal","C08",EN+"put.go","""	if isFatal || len(goodShards) == 0 {
+		return fmt.Errorf("failed to broadcast""","""	if len(goodShards) == 0 {
+		return fmt.Errorf("failed to broadcast""",rule="C08.R3")
+V("C08-failed-shard-counted","C08",EN+"put.go","""		err := e.putToShard(sh, addr, obj, objBin)
+		if err == nil || errors.Is(err, errExists) {
+			goodShards = append(goodShards, sh)""","""		err := e.putToShard(sh, addr, obj, objBin)
+		if err == nil || errors.Is(err, errExists) || errors.Is(err, shard.ErrReadOnlyMode) {
+			goodShards = append(goodShards, sh)""",rule="C08.R1")
